@@ -278,5 +278,16 @@ Fixpoint cmd_loop (fx : bool) (uri_ok : bytes -> bool) (ob : observer) (ws : boo
         end
   end.
 
+(* how a response goes out on a WebSocket connection (ServerCommandSession.writeResponse): frame header and text
+   in ONE connection write - the forwarding goroutine writes rtp frames to the same connection and a full send
+   queue drops whole writes, so two writes could lose the frame alignment.  The answers to ANNOUNCE and RECORD
+   are written without a frame (publishing over WebSocket is not supported) *)
+Definition resp_framed (ws : bool) (e : cev) : bool :=
+  ws && match e with
+        | CvResp KAnnounce _ _ | CvResp KRecord _ _ => false
+        | CvResp _ _ _ | CvSetupUdp _ _ _ _ => true
+        | _ => false
+        end.
+
 Definition run_cmd (fx : bool) (uri_ok : bytes -> bool) (ob : observer) (ws : bool) (s : bytes) : res (cstate * list cev) :=
   cmd_loop fx uri_ok ob ws (S (length s)) s cs_init [].
